@@ -23,7 +23,7 @@ from ..harness import arr, scalar
 from ..interp import State
 from ..terms import Dim, T, V, vconst
 
-FLOOR = 14
+FLOOR = 40
 CLS = "skmatter.sample_selection.DirectionalConvexHull"
 
 
@@ -52,14 +52,18 @@ def check(ctx):
     ctx.no_shape_conflicts("Shape", "_directional_convex_hull_distance", I, 0, site)
     ctx.shape_is("Shape", "one distance per point", r, ("V",), site)
     # ---- fit --------------------------------------------------------------------------------------------
-    for low in ([0, 1], [2]):
+    for low, refit in (([0, 1], False), ([2], False), ([0, 1], True), ([2], True)):
         I, st = ctx.interp(assume=protocols.assume_default), State()
         o = ctx.construct(I, st, cls, low_dim_idx=low)
         X, y = arr("X", "N", "M"), arr("y", "N")
+        if refit:
+            # the same object fitted before on other data (other numbers of samples and columns):
+            # everything a fit defines is rebuilt from the new data
+            ctx.call_method(I, st, o, "fit", arr("X0", "N0", "M0"), arr("y0", "N0"))
         lo = len(I.events)
         r = ctx.call_method(I, st, o, "fit", X, y)
         site = ctx.site(P.method(cls, "fit"))
-        cfg = f"low_dim_idx={low}"
+        cfg = f"low_dim_idx={low}" + (",refit" if refit else "")
         I2, s2 = ctx.interp(assume=protocols.assume_default), State()
         lowv = I2.mk_list([vconst(i) for i in low])
         ref = ctx.call_func(I2, s2, "ref.dch_ref.dch_fit", X, arr("y", "N", 1), lowv)
